@@ -1,0 +1,207 @@
+//go:build verif
+
+package hsmsss
+
+import (
+	"context"
+	"net"
+	"sync"
+	"time"
+
+	"github.com/arloliu/go-secs/v2/hsms"
+)
+
+// Verification hook (build tag `verif` only, add-only): run the REAL runLinktest goroutine against a
+// scripted runtime, so that every value the loop reads from the outside world during one wake-up — line
+// activity, the in-flight gauge at its three read points, the probe result, the receive stamp at the
+// failure snapshot and at the pre-disconnect re-check — is chosen by the caller. This reaches orderings
+// that wall-clock timing cannot produce on demand (life arriving between the failure snapshot and the
+// re-check).
+
+// VerifLinktestObs scripts ONE wake-up of runLinktest.
+type VerifLinktestObs struct {
+	Active         bool  // a frame moved within the last interval (suppression rule 1)
+	InflightPre    int64 // DataMsgInflight() at the rule-2 check
+	ProbeOK        bool  // the Linktest transaction is answered (false: T6 timeout)
+	RecvStamp      int64 // lastRecvStamp in force during this wake-up (a value far in the past, < 0)
+	LifeAfterProbe bool  // a frame arrives while the probe is outstanding (lastRecvStamp := now)
+	Inflight       int64 // DataMsgInflight() at the failure snapshot
+	FinalInflight  int64 // DataMsgInflight() at the pre-disconnect re-check
+	FinalLife      bool  // a frame arrives between the failure snapshot and the re-check
+}
+
+// VerifLinktestResult is what the loop did.
+type VerifLinktestResult struct {
+	Down     bool // rt.TCPDown was called
+	Steps    int  // wake-ups consumed
+	TimedOut bool // the goroutine did not finish (harness error)
+	Send     uint64
+	Recv     uint64
+	Err      uint64
+	Credited uint64
+	Suppress uint64
+}
+
+type verifLtRuntime struct {
+	t         *transport
+	mu        sync.Mutex
+	obs       []VerifLinktestObs
+	i         int // index of the wake-up in progress (-1 before the first)
+	calls     int // DataMsgInflight calls within the wake-up
+	suppress  bool
+	threshold int
+	down      bool
+	sys       uint32
+}
+
+const verifLtPast = int64(-1) << 50 // "long ago" for the send stamp
+
+func (v *verifLtRuntime) cur() *VerifLinktestObs {
+	if v.i >= 0 && v.i < len(v.obs) {
+		return &v.obs[v.i]
+	}
+
+	return nil
+}
+
+func (v *verifLtRuntime) State() hsms.ConnState {
+	v.mu.Lock()
+	defer v.mu.Unlock()
+	v.i++
+	v.calls = 0
+	o := v.cur()
+	if o == nil {
+		return hsms.NotSelectedState // history exhausted: the loop leaves as after a Deselect
+	}
+	v.t.lastSendStamp.Store(verifLtPast)
+	if o.Active {
+		// "now", nudged half an interval ahead so that a scheduling hiccup before the idle check cannot turn
+		// an active line into a silent one
+		v.t.lastRecvStamp.Store(v.t.monoNanos() + int64(v.LinktestInterval()/2))
+	} else {
+		v.t.lastRecvStamp.Store(o.RecvStamp)
+	}
+
+	return hsms.SelectedState
+}
+
+func (v *verifLtRuntime) LinktestSuppression() bool { return v.suppress }
+
+func (v *verifLtRuntime) DataMsgInflight() int64 {
+	v.mu.Lock()
+	defer v.mu.Unlock()
+	o := v.cur()
+	if o == nil {
+		return 0
+	}
+	v.calls++
+	switch v.calls {
+	case 1:
+		return o.InflightPre
+	case 2:
+		return o.Inflight
+	default:
+		if o.FinalLife {
+			v.t.lastRecvStamp.Store(v.t.monoNanos() + 1)
+		}
+
+		return o.FinalInflight
+	}
+}
+
+func (v *verifLtRuntime) WriteMessage(_ context.Context, msg hsms.Message) (hsms.Message, error) {
+	v.mu.Lock()
+	defer v.mu.Unlock()
+	o := v.cur()
+	if o == nil {
+		return nil, hsms.ErrConnClosed
+	}
+	if o.LifeAfterProbe {
+		v.t.lastRecvStamp.Store(v.t.monoNanos() + 1)
+	}
+	if o.ProbeOK {
+		return msg, nil
+	}
+
+	return nil, hsms.ErrT6Timeout
+}
+
+func (v *verifLtRuntime) TCPDown(error) {
+	v.mu.Lock()
+	v.down = true
+	v.mu.Unlock()
+}
+
+func (v *verifLtRuntime) TCPUp(net.Conn)                                {}
+func (v *verifLtRuntime) CommitSelected() bool                          { return false }
+func (v *verifLtRuntime) SelectLost()                                   {}
+func (v *verifLtRuntime) T7Expired()                                    {}
+func (v *verifLtRuntime) DeliverOwnedFrame([]byte) error                { return nil }
+func (v *verifLtRuntime) RouteReply(hsms.Message) bool                  { return false }
+func (v *verifLtRuntime) RouteData(*hsms.DataMessage) error             { return nil }
+func (v *verifLtRuntime) SendAsync(context.Context, hsms.Message) error { return nil }
+func (v *verifLtRuntime) WriteMessageNoReply(context.Context, hsms.Message) error {
+	return nil
+}
+func (v *verifLtRuntime) Done() <-chan struct{} { return nil }
+func (v *verifLtRuntime) Timers() hsms.TimerConfig {
+	return hsms.TimerConfig{T3: time.Second, T6: time.Second, T8: time.Second}
+}
+func (v *verifLtRuntime) SessionID() uint16               { return 0xFFFF }
+func (v *verifLtRuntime) LinktestInterval() time.Duration { return 10 * time.Millisecond }
+func (v *verifLtRuntime) LinktestFailThreshold() int      { return v.threshold }
+func (v *verifLtRuntime) NextSystemBytes() [4]byte {
+	v.sys++
+
+	return hsms.ToSystemBytes(v.sys)
+}
+
+// VerifRunLinktest runs the real runLinktest over the scripted history and reports what it did.
+func VerifRunLinktest(suppress bool, threshold int, obs []VerifLinktestObs) VerifLinktestResult {
+	cfg, err := NewConfig("127.0.0.1", 1)
+	if err != nil {
+		return VerifLinktestResult{TimedOut: true}
+	}
+
+	t := newTransport(cfg)
+	rt := &verifLtRuntime{t: t, obs: obs, i: -1, suppress: suppress, threshold: threshold}
+	t.rt = rt
+	ctx, cancel := context.WithCancel(context.Background())
+	defer cancel()
+	t.genCtx = ctx
+
+	var sr suppressionRuntime
+	if suppress {
+		sr = rt
+	}
+
+	g := &genWG{}
+	g.linktest.Add(1)
+	done := make(chan struct{})
+
+	go func() {
+		t.runLinktest(ctx, g, rt.LinktestInterval(), sr)
+		close(done)
+	}()
+
+	res := VerifLinktestResult{}
+	select {
+	case <-done:
+	case <-time.After(10 * time.Second):
+		res.TimedOut = true
+		cancel()
+		<-done
+	}
+
+	rt.mu.Lock()
+	res.Down = rt.down
+	res.Steps = rt.i
+	if rt.down {
+		res.Steps = rt.i + 1
+	}
+	rt.mu.Unlock()
+	res.Send, res.Recv, res.Err = t.metrics.LinktestSendCount(), t.metrics.LinktestRecvCount(), t.metrics.LinktestErrCount()
+	res.Credited, res.Suppress = t.metrics.LinktestCreditedCount(), t.metrics.LinktestSuppressedCount()
+
+	return res
+}
